@@ -80,11 +80,51 @@ structure St where
   /-- parts condemned by a committed collector transaction whose file is not yet removed. -/
   gcExt : List (Store × PartId)
 
+/-- What an INSERT does when the primary key exists. -/
+inductive Conflict where
+  | fail | ignore | increment
+  deriving DecidableEq, Repr
+
+/-- The `version` comparison guarding a statement. -/
+inductive VerGuard where
+  | eq | ge | none
+  deriving DecidableEq, Repr
+
+/-- T1 facts: the clauses of the part-registry SQL statements the protocol relies on.  The
+current values are regenerated from `sqlite/repository/partregistry/sqlite.go` into
+`Pithos.Gen.PartsSql` on every run; the model executes whatever they say. -/
+structure SqlFacts where
+  /-- `insertPartRegistryStmt` (RegisterParts): plain INSERT = `fail` on an existing id -/
+  register : Conflict
+  /-- `addReferencesStmt` carries `AND ref_count > 0` -/
+  addGuardPositive : Bool
+  /-- `updateRefCountByPartIdStmt`: `AND version = $4` -/
+  updateGuard : VerGuard
+  /-- `deleteByPartIdStmt`: `AND version = $2` -/
+  deleteGuard : VerGuard
+  deriving DecidableEq, Repr
+
+/-- The statements as designed. -/
+def SqlFacts.designed : SqlFacts := ⟨.fail, true, .eq, .eq⟩
+
+/-- What the invariant proof needs of them: the collector's repairs are compare-and-swap on the
+exact observed version. -/
+def SqlFacts.Sound (q : SqlFacts) : Prop := q.updateGuard = .eq ∧ q.deleteGuard = .eq
+
+instance (q : SqlFacts) : Decidable q.Sound := by unfold SqlFacts.Sound; exact inferInstance
+
+def VerGuard.ok (g : VerGuard) (current observed : Nat) : Bool :=
+  match g with
+  | .eq => current == observed
+  | .ge => decide (observed ≤ current)
+  | .none => true
+
 structure Cfg where
   grace : Nat
   storeNames : List Store
   /-- `CapabilityTxFreeDeletePart`: the collector deletes after its transaction committed. -/
   txFree : Store → Bool
+  sql : SqlFacts := SqlFacts.designed
 
 def St.init : St :=
   { rows := [], reg := fun _ => none, idx := fun _ _ => none, stores := fun _ _ => none,
@@ -170,12 +210,12 @@ def rmStep (s : St) (owner : Owner) (seq : Option Nat) : St :=
     stores := fun st q => if rmZero s.reg removed q && lastStoreOf removed q == some st then none else s.stores st q }
 
 /-- One step inside a write transaction.  `none` = the transaction fails (and is rolled back). -/
-def micro (t : St × List Pend) : Micro → Option (St × List Pend)
+def micro (q : SqlFacts) (t : St × List Pend) : Micro → Option (St × List Pend)
   | .acquire p st =>
     if t.1.rows.any (fun r => r.pid == p && r.store == st) then
       match t.1.reg p with
       | some (c, v) =>
-        if 0 < c then          -- `… WHERE part_id = $3 AND ref_count > 0`
+        if 0 < c || !q.addGuardPositive then          -- `… WHERE part_id = $3 AND ref_count > 0`
           some ({ t.1 with reg := upd1 t.1.reg p (some (c + 1, v + 1)) }, t.2 ++ [⟨p, true, st⟩])
         else none
       | none => none
@@ -187,7 +227,7 @@ def micro (t : St × List Pend) : Micro → Option (St × List Pend)
     | some e =>
       match t.1.reg e with
       | some (c, v) =>
-        if 0 < c then some (shareHit t.1 t.2 st f e c v)
+        if 0 < c || !q.addGuardPositive then some (shareHit t.1 t.2 st f e c v)
         else   -- stale entry: `DeletePartDedupEntries [e]`, then index the fresh part
           some (keepFresh t.1 t.2 st f (tryIndex (dropIdx t.1.idx (fun q => q == e)) st ck f))
       | none => some (keepFresh t.1 t.2 st f (tryIndex (dropIdx t.1.idx (fun q => q == e)) st ck f))
@@ -201,21 +241,27 @@ def micro (t : St × List Pend) : Micro → Option (St × List Pend)
       else if e.pre then some ({ t.1 with rows := t.1.rows ++ [⟨owner, seq, e.pid, e.store, ck⟩] }, rest)
       else
         match t.1.reg e.pid with
-        | some _ => none       -- RegisterParts: INSERT on an existing primary key
+        | some (c, v) =>
+          -- RegisterParts on an existing primary key: what the INSERT's conflict clause says
+          match q.register with
+          | .fail => none
+          | .ignore => some ({ t.1 with rows := t.1.rows ++ [⟨owner, seq, e.pid, e.store, ck⟩] }, rest)
+          | .increment => some ({ t.1 with rows := t.1.rows ++ [⟨owner, seq, e.pid, e.store, ck⟩],
+                                           reg := upd1 t.1.reg e.pid (some (c + 1, v + 1)) }, rest)
         | none => some ({ t.1 with rows := t.1.rows ++ [⟨owner, seq, e.pid, e.store, ck⟩],
                                    reg := upd1 t.1.reg e.pid (some (1, 1)) }, rest)
   | .rm owner seq => some (rmStep t.1 owner seq, t.2)
 
-def runMicros (t : St × List Pend) : List Micro → Option (St × List Pend)
+def runMicros (q : SqlFacts) (t : St × List Pend) : List Micro → Option (St × List Pend)
   | [] => some t
-  | m :: ms => match micro t m with
+  | m :: ms => match micro q t m with
     | none => none
-    | some t' => runMicros t' ms
+    | some t' => runMicros q t' ms
 
 /-- A whole write transaction: all micro steps succeed and every acquired reference ended up in
 a row; otherwise nothing happens (rollback). -/
-def runTx (s : St) (script : List Micro) : Option St :=
-  match runMicros (s, []) script with
+def runTx (q : SqlFacts) (s : St) (script : List Micro) : Option St :=
+  match runMicros q (s, []) script with
   | some (s', []) => some s'
   | _ => none
 
@@ -229,7 +275,7 @@ def obsOf (s : St) : List Obs :=
     | none => if 0 < refs s.rows p then some ⟨p, refs s.rows p, none, none⟩ else none
 
 /-- The body of the reconciliation loop for one observation. -/
-def reconcileOne (s : St) (o : Obs) : St :=
+def reconcileOne (q : SqlFacts) (s : St) (o : Obs) : St :=
   match o.ver with
   | none =>
     -- RestoreMissing: INSERT … ON CONFLICT(part_id) DO NOTHING
@@ -240,12 +286,12 @@ def reconcileOne (s : St) (o : Obs) : St :=
     if o.actual = 0 then
       -- DeleteByPartId … AND version = $2
       match s.reg o.pid with
-      | some (_, w) => if w = v then { s with reg := upd1 s.reg o.pid none } else s
+      | some (_, w) => if q.deleteGuard.ok w v then { s with reg := upd1 s.reg o.pid none } else s
       | none => s
     else if o.rc ≠ some o.actual then
       -- UpdateRefCount … AND version = $4
       match s.reg o.pid with
-      | some (_, w) => if w = v then { s with reg := upd1 s.reg o.pid (some (o.actual, w + 1)) } else s
+      | some (_, w) => if q.updateGuard.ok w v then { s with reg := upd1 s.reg o.pid (some (o.actual, w + 1)) } else s
       | none => s
     else s
 
@@ -292,7 +338,7 @@ inductive Act where
   deriving Repr
 
 def step (cfg : Cfg) (s : St) : Act → St
-  | .tx script => (runTx s script).getD s
+  | .tx script => (runTx cfg.sql s script).getD s
   | .tick n => { s with now := s.now + n }
   | .orphan st f =>
     if f ∈ s.used then s
@@ -301,7 +347,7 @@ def step (cfg : Cfg) (s : St) : Act → St
   | .gcReconcile =>
     match s.gcObs with
     | [] => s
-    | o :: rest => { reconcileOne s o with gcObs := rest }
+    | o :: rest => { reconcileOne cfg.sql s o with gcObs := rest }
   | .gcDedup => { s with idx := gcDedupIdx s }
   | .gcCondemn st p => if p ∈ s.used then condemn cfg s st p else s   -- only ids that were handed out can be listed
   | .gcExtDelete =>
@@ -323,9 +369,9 @@ def candidates (cfg : Cfg) (s : St) (st : Store) : List PartId :=
     | some t => decide (t + cfg.grace < s.now)
     | none => false
 
-def reconcileAll (s : St) : List Obs → St
+def reconcileAll (q : SqlFacts) (s : St) : List Obs → St
   | [] => s
-  | o :: os => reconcileAll (reconcileOne s o) os
+  | o :: os => reconcileAll q (reconcileOne q s o) os
 
 def condemnAll (cfg : Cfg) (s : St) (st : Store) : List PartId → St
   | [] => s
@@ -341,9 +387,26 @@ def sweepStore (cfg : Cfg) (fail : PartId → Bool) (s : St) (st : Store) : St :
   extAll (condemnAll cfg s st (candidates cfg s st)) fail
 
 def gcRunF (cfg : Cfg) (fail : PartId → Bool) (s : St) : St :=
-  let s1 := reconcileAll s (obsOf s)
+  let s1 := reconcileAll cfg.sql s (obsOf s)
   let s2 := { s1 with gcObs := [], idx := gcDedupIdx s1 }
   cfg.storeNames.foldl (sweepStore cfg fail) s2
+
+/-- The rest of a pass whose observation (`gcObs`) was taken earlier — writer transactions may
+have committed in between (driver: collector paused between its read and its first write). -/
+def gcResumeObs (cfg : Cfg) (fail : PartId → Bool) (s : St) : St :=
+  let s1 := reconcileAll cfg.sql s s.gcObs
+  let s2 := { s1 with gcObs := [], idx := gcDedupIdx s1 }
+  cfg.storeNames.foldl (sweepStore cfg fail) s2
+
+/-- The first half of a pass up to (and including) the listing of store `st`. -/
+def gcUntilList (cfg : Cfg) (s : St) (st : Store) : St × List PartId :=
+  let s1 := reconcileAll cfg.sql s (obsOf s)
+  let s2 := { s1 with gcObs := [], idx := gcDedupIdx s1 }
+  (s2, candidates cfg s2 st)
+
+/-- … and the second half: the candidates listed earlier are condemned now. -/
+def gcResumeList (cfg : Cfg) (fail : PartId → Bool) (s : St) (st : Store) (cands : List PartId) : St :=
+  extAll (condemnAll cfg s st cands) fail
 
 /-- `runGCWithContext` with nothing else running and every deletion succeeding. -/
 def gcRun (cfg : Cfg) (s : St) : St := gcRunF cfg (fun _ => false) s
